@@ -255,8 +255,9 @@ pub fn scenarios(thorough: bool) -> Vec<Scenario> {
         add(format!("utils/f128^2/{n}"), Box::new(move || utils_scenario::<B128, QuadExtension<B128>>(n)));
     }
     // (polynomial size, columns): tall and narrow, and short and wide (few rows, many segments: more batches than rows
-    // for large pools)
-    let shapes: Vec<(usize, usize)> = if thorough { vec![(512, 1), (1024, 8), (1024, 9), (2048, 17), (256, 40), (16, 128), (8, 255), (32, 40), (64, 17)] } else { vec![(512, 1), (1024, 9), (16, 128), (8, 255)] };
+    // for large pools), and segment counts that are not powers of two (3, 5, 7, 13 segments: rows x segments / 1024 is
+    // not a power of two either)
+    let shapes: Vec<(usize, usize)> = if thorough { vec![(512, 1), (1024, 8), (1024, 9), (2048, 17), (256, 40), (16, 128), (8, 255), (32, 40), (64, 17), (1024, 20), (512, 50), (128, 100), (4096, 33)] } else { vec![(512, 1), (1024, 9), (16, 128), (8, 255), (1024, 20)] };
     for (n, w) in shapes {
         add(format!("matrix/f64/{n}x{w}"), Box::new(move || matrix_scenario::<B64, B64, hashers::Blake3_256<B64>>(n, w)));
     }
